@@ -78,7 +78,7 @@ CHECKS["C05"] = {
     "technique": "bounded exhaustive enumeration of filter specs x client addresses (reference: net.IPNet.Contains + decision table) and of request histories x filter placements on the real mux",
     "level_text": "all allow/block specs with <=2+<=2 entries from a 14-entry menu (and every prefix length /0../32, /0../128 around two anchors) x 165 client "
                   "addresses (anchor +- one bit at every position, IPv4-mapped) decided by the real IPFilter equal the reference; all request histories up to the bound "
-                  "x 64 server/rule/path filter placements x cache sizes {0,1,16} on the real mux: denied => 4xx (403 if routed) and no handler, else equal to the filterless twin; sibling family: 2 rules x 2 paths carrying different filters under a server filter (768 placements x cache on/off x request pairs)",
+                  "x 64 server/rule/path filter placements x cache sizes {0,1,16} on the real mux: denied => 4xx (403 if routed) and no handler, else equal to the filterless twin; sibling family: 2 rules x 2 paths carrying different filters under a server filter (768 placements x cache on/off x request pairs); nested entries sharing one base address as every ordered list of 1-3 entries",
     "level_note": "finite menus; client address taken from RemoteAddr / X-Forwarded-For / X-Real-IP via the real realip code",
     "rule": "unit ipfilter: choice tree (allow subset, block subset, blockByDefault) and (family, prefix length, allow|block, default), each execution decides all clients; "
             "unit mux: choice tree over histories of 36 requests; distinct_nontrivial = distinct (denied?, twin status) classes",
@@ -113,7 +113,7 @@ CHECKS["C14"] = {
     "technique": "explicit-state model checking (BFS over subscription histories on the real broker objects, reference = MQTT 3.1.1 matching over the live set, structural no-residue differential)",
     "level_text": "every history of SUBSCRIBE / UNSUBSCRIBE (single, mixed with a malformed filter, never-subscribed) / disconnect / reconnect by two clients over 10 filters "
                   "(+, #, empty levels) and 4 malformed filters up to the depth bound is driven through the real Client.processPacket / closeAndDelSession; after every operation "
-                  "all 39 topic names are routed by the real TopicManager and compared with the reference; the trie must equal the trie built from scratch from the live set; the routing is done twice per topic, under two different orders in which findSubscribers visits the children of a trie node (range over node.nodes rewritten)",
+                  "all 39 topic names are routed by the real TopicManager and compared with the reference; the trie must equal the trie built from scratch from the live set; the routing is done twice per topic, under two different orders in which findSubscribers visits the children of a trie node (range over node.nodes rewritten); unit sessions (harness of C16): connection-level histories (reconnect, take-over, admin delete, storage stalls) on the real broker: what is routed to the current connection is exactly its live subscriptions",
     "level_note": "finite alphabet; '$' topics excluded; canonical state = live subscription set + connection flags (a residue is itself a violation, so merged states have equal futures)",
     "rule": "BFS split into one job per first operation; states deduplicated by canonical live set; distinct_nontrivial = distinct operation outcome classes",
     "explanation": "states = distinct canonical states reached; transitions = operations applied to fresh real objects after replaying the shortest path; each transition checks 39 topics x 2 clients",
@@ -132,7 +132,7 @@ CHECKS["C09"] = {
     "technique": "explicit-state model checking (BFS over arrival sequences on the real limiters, observed-quantities oracle); filter reload differential in virtual time",
     "level_text": "every arrival sequence up to the bound (6 gaps incl. exact period boundaries and multi-period idle gaps) for 12 policies on the real RateLimiter, plus AcquireN and the "
                   "MQTT request+byte MultiRateLimiter, is checked against bookkeeping of release periods: per period <= limit releases, wait <= timeout, no wait while the arrival period has a "
-                  "spare permit, rejection only when every period up to the timeout horizon is full; AcquireN with timeout 0 additionally against the window clause (k consecutive periods admit < k x limit + largest request); unit mqttlimiter: the broker's Limiter for every combination of requestRate / bytesRate / timePeriod in virtual time against the exact timeout-0 reference",
+                  "spare permit, rejection only when every period up to the timeout horizon is full; AcquireN with timeout 0 additionally against the window clause (k consecutive periods admit < k x limit + largest request); unit mqttlimiter: the broker's Limiter for every combination of requestRate / bytesRate / timePeriod in virtual time against the exact timeout-0 reference; unit rlfilter also checks the CONFIGURED policy as observed through the filter (wait <= timeoutDuration, per-period releases, 429 only when full) and that an update changing a rule's effective policy applies",
     "level_note": "clock owned through ratelimiter.nowFunc; period 10ms; canonical state = remaining reservations + phase within the period + per-period release counts from now on",
     "rule": "BFS per policy; state = canonical dump of the limiter's private fields and the oracle's bookkeeping; distinct_nontrivial = distinct outcome classes (admit-now, admit-wait-k-periods, reject)",
     "explanation": "states = distinct canonical states; transitions = arrivals applied to a fresh real limiter after replaying the shortest path",
@@ -221,7 +221,7 @@ CHECKS["C15"] = {
     "level": "model_checking",
     "technique": "exhaustive enumeration of subscriber populations x QoS x map visiting orders x ack behaviours on the real broker goroutines, run to quiescence on the virtual clock of a testing/synctest bubble",
     "level_text": "real Broker (real newBroker, in-memory listener) with raw MQTT clients over net.Pipe: every population of 2-3 subscribers (topic t/u; filters t/u, t/+, #, the non-matching level-prefix t, x; QoS 0/1; the first client may hold a second overlapping subscription with the other QoS and may unsubscribe or drop before the publish) x message QoS x EVERY order in which "
-                  "sendMsgToClient visits the subscriber map and findSubscribers the trie; delivered and retransmitted copies carry the original topic, payload and QoS; QoS1 retransmission every 200 ms until PUBACK and never after, for ack after 0/1/3 periods or never; QoS0 bursts to a client that reads late (what fits its queue arrives, in order); client QoS1 PUBLISH with publish limiter and dropping pipeline, PUBACKs read promptly or only after the burst",
+                  "sendMsgToClient visits the subscriber map and findSubscribers the trie; delivered and retransmitted copies carry the original topic, payload and QoS; QoS1 retransmission every 200 ms until PUBACK and never after (subscriber on a fresh session or continuing a stored persistent one), for ack after 0/1/3 periods or never; QoS0 bursts to a client that reads late (what fits its queue arrives, in order); client QoS1 PUBLISH with publish limiter and dropping pipeline, PUBACKs read promptly or only after the burst",
     "level_note": "net of broker.go redirected to an in-memory listener; the range over the subscriber map in sendMsgToClient rewritten to an explorer-chosen key order (if the site is not found the check "
                   "reports an instrumentation gap and runs with sorted order); goroutines run free between quiescent points (no interleaving control in this check)",
     "rule": "choice tree: filter and QoS of each subscriber, message QoS, visiting order, ack delay, burst size, limiter/drop/gap; distinct_nontrivial = distinct outcome classes",
@@ -238,11 +238,11 @@ CHECKS["C16"] = {
     "technique": "exhaustive enumeration of connection-event histories for one client id on the real broker goroutines (quiescence by testing/synctest), reference session model",
     "level_text": "every well-formed sequence of events {connect clean, connect non-clean (takeover when one is open), subscribe t1/t2, unsubscribe, network drop of the current connection, network drop of a superseded "
                   "connection (= the moment its read loop notices), write-dead current connection, admin session delete, session storage stalls / resumes (puts block meanwhile)} up to the bound, on the real Broker with raw MQTT clients; after every event probe messages on every topic and the broker's "
-                  "registration/session map are compared with the reference session model (DESIGN A.6)",
+                  "registration/session map are compared with the reference session model (DESIGN A.6); unit takeoversched: the end of connection A's link runs concurrently with connection B of the same id connecting and subscribing, at gate granularity (sync and atomics of broker.go, client.go, session_manager.go, session.go, topic.go gated): B stays registered, receives what it subscribed (plus A's topics iff it continues A's persistent session), and its stored session survives",
     "level_note": "events are separated by quiescence (synctest.Wait), i.e. the interleaving of goroutines inside one event is the Go runtime's; up to 3 connections per history",
     "rule": "choice tree over the events enabled in each state; distinct_nontrivial = distinct event histories",
     "explanation": "states = executions (event histories run on a fresh real broker); transitions = executions",
-    "bounds": {"quick": "histories of 7 events", "thorough": "histories of 8 events"},
+    "bounds": {"quick": "histories of 7 events; take-over schedules with <=2 preemptions", "thorough": "histories of 8 events; <=3 preemptions"},
     "assumptions": ["synctest.Wait quiescence"],
     "units": [
         {"name": "mqttproxy", "pkg": "pkg/object/mqttproxy", "test": "TestVerifC16", "inject": [BROKERRIG], "instrument": BROKERINSTR},
@@ -260,7 +260,7 @@ CHECKS["C17"] = {
     "technique": "controlled-scheduler enumeration of accept/close/SetMaxConnection interleavings on the real LimitListener+Semaphore; exhaustive connect/drop/takeover histories on the real MQTT broker",
     "level_text": "HTTP: 8 scenarios (caps 1-2, 3-4 dials, closes incl. double close, grow / shrink below usage / shrink+grow, 1-2 acceptor loops) explored over every schedule of dial, accept, close and "
                   "SetMaxConnection steps (incl. the goroutine that applies a cap change) up to the preemption bound; oracle: with an unchanged cap no admission at open >= cap; at quiescence free capacity is usable, "
-                  "the final capacity equals the last cap exactly (probe dials), nothing established is dropped. MQTT: every history of connect / drop / takeover / end-of-a-superseded-link events over 3 ids at caps 1 and 2 on the real broker; unit httpruntime: every history of {dial, close, hot update of maxConnections to 1/2/3, hot update of the rules} on the REAL HTTPServer runtime (fsm, http.Server, LimitListener) over an in-memory listener: accepted open connections = reference while all cap changes applied at once, no established connection dropped, answers from the latest rules",
+                  "the final capacity equals the last cap exactly (probe dials), nothing established is dropped. MQTT: every history of connect / drop / takeover / end-of-a-superseded-link events over 3 ids at caps 1 and 2 on the real broker; unit httpruntime: every history of {dial, close, hot update of maxConnections to 1/2/3, hot update of the rules} on the REAL HTTPServer runtime (fsm, http.Server, LimitListener) over an in-memory listener: accepted open connections = reference while all cap changes applied at once, no established connection dropped, answers from the latest rules; the limitlistener unit counts open connections at the socket level (the accepted connection's own Close is a gate)",
     "level_note": "sync of sem.go / limitlistener.go replaced by gated shims, gate at the goroutine started by SetMaxCount; golang.org/x/sync/semaphore itself runs uninstrumented (its waits are channel waits, i.e. durably blocked); "
                   "MQTT events are separated by quiescence (no interleaving control inside one CONNECT)",
     "rule": "choice tree = scheduler choices (preemptions are deviations) resp. event histories; distinct_nontrivial = distinct (accepted, open) outcomes resp. histories",
@@ -284,7 +284,7 @@ CHECKS["C11"] = {
     "level_text": "(a) for 14 filter kinds x {same, changed spec} x 0-2 earlier requests: after the real Pipeline.Inherit (which closes the old generation) a request still holding the old generation and one on the new "
                   "generation complete without panic; (b) BFS over create/update/apply/delete of pipelines p1,p2 and a traffic gate: after every operation every other object still resolves through the gate's mapper "
                   "and answers with its own generation, Apply of an equal spec is a no-op; (c) 2 requests || ApplyPipeline || Delete+Create under the scheduler: no request fails or mixes generations, "
-                  "a request started after the update sees the new generation; (d) requests || mux.reload under the scheduler: every per-request option comes from one generation; (a2) a filter that keeps its name but changes its kind (all ordered pairs of 14 kinds): the updated pipeline behaves like a fresh one; "
+                  "a request started after the update sees the new generation; (d) requests || mux.reload under the scheduler: every per-request option comes from one generation; (a2) a filter that keeps its name but changes its kind (all ordered pairs of 14 kinds): the updated pipeline behaves like a fresh one; unit rlfilter (harness of C09): RateLimiter state kept across an update of an unchanged rule, a changed effective policy applied; "
                   "(e) reload differential: for every ordered pair of 7 server specs (rules, body limit, route cache, server-level ipFilter) x 0-2 warm-up requests, after reload every request is answered exactly as by a fresh mux built from the new spec",
     "level_note": "sync of trafficcontroller.go and sync/atomic of mux.go replaced by gated shims; a recording filter yields between the filters of a pipeline and inside its Init / Inherit; unit httpruntime (shared with C17): the real HTTPServer runtime on an in-memory listener, hot updates of rules and maxConnections; updates that need a listener restart are not covered",
     "rule": "choice trees: spec change / request count; BFS canonical state = live objects with generation; scheduler choices; distinct_nontrivial = distinct outcome classes",
@@ -341,7 +341,7 @@ CHECKS["C07"] = {
     "technique": "exhaustive enumeration (choice-tree DFS) of the product limits x sizes x encodings in both directions over real loopback sockets with a raw-socket client",
     "level_text": "requests: clientMaxBodySize at path and server level in {unset, 1000, -1} x body size {999, 1000, 1001, 10000} x {Content-Length, chunked, lying Content-Length}; responses: serverMaxBodySize at pool and "
                   "proxy level, same sizes and encodings; thorough adds the 4 MiB default (4MiB-1, 4MiB, 4MiB+1); oracle: over the effective limit => 413 and the backend never called / 5xx and none of the body; "
-                  "at or below => 200 with identical bytes; fewer bytes than declared => an error status (or, for streamed responses, a visibly broken framing), never a clean success",
+                  "at or below => 200 with identical bytes; fewer bytes than declared => an error status (or, for streamed responses, a visibly broken framing), never a clean success; the response direction also with Proxy compression on (client accepts gzip): the limit is about what the backend sends, a cut body must show at least as a damaged gzip stream",
     "level_note": "free-running real net/http stack; no timing in the oracle",
     "rule": "choice tree: inner limit, outer limit, size, encoding; distinct_nontrivial = distinct (direction, status) outcomes",
     "bounds": {"quick": "limit 1000: 2 x 108 cases", "thorough": "+ default 4 MiB limit: 2 x 9 cases"},
@@ -356,7 +356,7 @@ CHECKS["C18"] = {
     "technique": "controlled-scheduler enumeration of 3 concurrent admin requests on the real handlers with a linearisability oracle; TLA+ model of the cluster mutex checked by TLC, all its traces replayed against the real mutex on an embedded etcd",
     "level_text": "part 1: all 56 trios from 8 admin requests (create/update/delete/get/list on overlapping names, same and other kind) x {object present, absent} run concurrently on the real handlers over a fake cluster whose KV operations and (ideal) mutex are "
                   "scheduler gates, every schedule up to the preemption bound; oracle: some sequential order consistent with call/return order explains all statuses, X-Config-Version values, reads and the final store. "
-                  "part 2: see unit mutex (TLC + trace replay); job failed-acquisition: a member with a 1 s request timeout fails 1-2 times to lock a mutex another member holds; after the release the handle that failed, another handle of that member and the previous holder must each be able to acquire it",
+                  "part 2: see unit mutex (TLC + trace replay); job failed-acquisition: a member with a 1 s request timeout fails 1-2 times to lock a mutex another member holds; after the release the handle that failed, another handle of that member and the previous holder must each be able to acquire it; api unit: one request of each trio may go to a second member's API server working on the same store and mutex",
     "level_note": "part 1 assumes an exclusive lock (that is what part 2 is about); supervisor kinds are two test kinds",
     "rule": "choice tree: initial state + scheduler choices; distinct_nontrivial = distinct status triples",
     "explanation": "states = executions (schedules) resp. TLC states; transitions likewise; traces_validated_against_impl = executions on the real code",
@@ -373,7 +373,7 @@ CHECKS["C19"] = {
     "technique": "exhaustive enumeration of write histories x fault points (etcd server stop/start) x consumers x APIs against the real syncer on an embedded etcd",
     "level_text": "every history of up to 3 (thorough 4) operations from {put k1=v1, put k1=v2, del k1, put k2=v1, del k2, put outside the prefix} x {eager consumer, consumer that reads only afterwards} x {SyncPrefix, Sync (+ raw variants)} "
                   "x {burst, spaced writes}; continuations (every operation pair) after a consumer that stopped reading for 30 pull periods and then drains; thorough: every history of <=2 operations x an etcd server stop+start before every operation and after the last; oracle: each snapshot is a content the store had, positions non-decreasing, "
-                  "consecutive snapshots differ, the final content arrives within 100 pull periods without further writes, nothing spurious follows; job histories-with-etcd-outage: the server is down for longer than a pull period plus the request timeout (pulls fail) before or after the last write",
+                  "consecutive snapshots differ, the final content arrives within 100 pull periods without further writes, nothing spurious follows; job histories-with-etcd-outage: the server is down for longer than a pull period plus the request timeout (pulls fail) before or after the last write; fault kinds: server stop/start, and the member's client cut off from its server (pulls fail every time)",
     "level_note": "schedules inside etcd / the gRPC client are not controlled (free-running): the enumeration is over histories and fault points; a server-side watch cancellation cannot be provoked from outside and is covered only through the restart fault and the periodic pull",
     "rule": "choice tree: api, consumer, gap, history length, each operation, restart point; distinct_nontrivial = distinct (api, number of distinct contents, number of snapshots) classes",
     "bounds": {"quick": "histories <=3, 2 APIs; outage around 1 write", "thorough": "histories <=4, 4 APIs, 2 gaps; restart at every point of histories <=2"},
